@@ -45,7 +45,7 @@ func main() {
 	h.checkCases(r.Fork(), f.N(150, 5000))
 	h.pbCases(r.Fork(), f.N(150, 6000))
 	h.shardCases(r.Fork(), f.N(120, 4000))
-	h.bigShardCases(r.Fork(), f.N(6, 150))
+	h.bigShardCases(r.Fork(), f.N(8, 160))
 	h.builderCases(r.Fork(), f.N(6, 120))
 	h.compoundCases(r.Fork(), f.N(5, 100))
 }
